@@ -145,8 +145,10 @@ class Instrumented:
         from . import vmrun as _vm
         case_deadline = _time.time() + _vm.case_seconds(self.factor)
         budget = 30_000 * self.factor
-        def _mark(): tr.run_tapes = budget + 1
-        _vm.watch_begin(_vm.case_seconds(self.factor) * 2 + 3, _mark)
+        def _mark():
+            tr.run_tapes = budget + 1
+            if self.factor > 1: _vm.RUNAWAYS[0] = _vm.RUNAWAY_LIMIT
+        _vm.watch_begin(_vm.case_seconds(self.factor) + (4 if _vm.RUNAWAYS[0] < _vm.RUNAWAY_LIMIT else 1.5), _mark)
         def run_tape(tape, stack, cache, additional_flags={}):
             level[0] += 1
             tr.run_tapes += 1
